@@ -2148,7 +2148,10 @@ pub fn set_index(
                     }
                     Ok(())
                 } else {
-                    todo!("assgn to slice")
+                    Err(NErr::type_error(
+                        "assigning to a slice isn't implemented (use `every` to assign to each element)"
+                            .to_string(),
+                    ))
                     // set_index(pythonic_mut(&mut Rc::make_mut(v), i)?, rest, value)
                 }
             }
